@@ -146,7 +146,7 @@ class Ctx:
         z = as_z3bool(cond)
         key = key or f"{self.where}:{kind}"
         if z is True:
-            v = smt.Verdict(smt.PROVED, "syntactic", 0.0)
+            return True
         elif z is False:
             v = smt.Verdict(smt.REFUTED, "syntactic", 0.0, model={})
         else:
